@@ -56,13 +56,17 @@ import (
 // small ids <-> product values
 
 func dV4(k int) netip.Addr { return netip.AddrFrom4([4]byte{10, 0, byte(k >> 8), byte(k)}) }
+// IPv6 addresses carry numbers from 101 on (fd00::<k>), IPv4 addresses numbers below 101 (10.0.0.<k>)
+func dV6(k int) netip.Addr {
+	return netip.AddrFrom16([16]byte{0xfd, 0, 0, 0, 0, 0, 0, 0, 0, 0, 0, 0, 0, 0, byte(k >> 8), byte(k)})
+}
 func dAddrNum(s string) int {
 	a, err := netip.ParseAddr(s)
-	if err != nil || !a.Is4() {
+	if err != nil {
 		return 0
 	}
-	b := a.As4()
-	return int(b[2])<<8 | int(b[3])
+	b := a.AsSlice()
+	return int(b[len(b)-2])<<8 | int(b[len(b)-1])
 }
 func dEniID(e int) string  { return fmt.Sprintf("eni-%d", e) }
 func dEniMAC(e int) string { return fmt.Sprintf("00:16:3e:00:00:%02x", e) }
@@ -139,12 +143,13 @@ func (x *dWorld) at(point string, locked bool) {
 }
 
 // ---------------------------------------------------------------------------------------------
-// fake cloud behind factory.Factory (IPv4 only). State under cmu (a leaf lock: LoadNetworkInterface is
+// fake cloud behind factory.Factory (IPv4, and IPv6 on a dual-stack node). State under cmu (a leaf lock: LoadNetworkInterface is
 // called by the pool while it holds its own lock, so it must not take the world lock).
 
 type dEni struct {
 	primary int
 	v4      map[int]bool
+	v6      map[int]bool
 }
 
 type dCloud struct {
@@ -160,9 +165,12 @@ func (c *dCloud) clone(x *dWorld) *dCloud {
 	defer c.cmu.Unlock()
 	n := &dCloud{x: x, enis: map[int]*dEni{}, nextEni: c.nextEni}
 	for e, fe := range c.enis {
-		ne := &dEni{primary: fe.primary, v4: map[int]bool{}}
+		ne := &dEni{primary: fe.primary, v4: map[int]bool{}, v6: map[int]bool{}}
 		for a := range fe.v4 {
 			ne.v4[a] = true
+		}
+		for a := range fe.v6 {
+			ne.v6[a] = true
 		}
 		n.enis[e] = ne
 	}
@@ -187,13 +195,30 @@ func (c *dCloud) freeAddrLocked() int {
 			used[a] = true
 		}
 	}
-	for a := 1; a <= 200; a++ {
+	for a := 1; a <= 100; a++ {
 		if !used[a] {
 			return a
 		}
 	}
 	panic("verif: address universe exhausted")
 }
+
+func (c *dCloud) freeV6Locked() int {
+	used := map[int]bool{}
+	for _, e := range c.enis {
+		for a := range e.v6 {
+			used[a] = true
+		}
+	}
+	for a := 101; a <= 250; a++ {
+		if !used[a] {
+			return a
+		}
+	}
+	panic("verif: address universe exhausted")
+}
+
+func dBoth(fe *dEni) []int { return append(dSet(fe.v4), dSet(fe.v6)...) }
 
 func dSet(m map[int]bool) []int {
 	r := []int{}
@@ -223,7 +248,7 @@ func (c *dCloud) snapshot() []vt.M {
 	sort.Ints(es)
 	r := []vt.M{}
 	for _, e := range es {
-		r = append(r, vt.M{"e": e, "as": dSet(c.enis[e].v4)})
+		r = append(r, vt.M{"e": e, "as": dBoth(c.enis[e])})
 	}
 	return r
 }
@@ -244,9 +269,14 @@ func (c *dCloud) CreateNetworkInterface(n4, n6 int, eniType string) (*daemon.ENI
 	c.cmu.Lock()
 	c.nextEni++
 	e := c.nextEni
-	fe := &dEni{v4: map[int]bool{}}
+	fe := &dEni{v4: map[int]bool{}, v6: map[int]bool{}}
 	c.enis[e] = fe
-	var r4 []netip.Addr
+	var r4, r6 []netip.Addr
+	for i := 0; i < n6; i++ {
+		a := c.freeV6Locked()
+		fe.v6[a] = true
+		r6 = append(r6, dV6(a))
+	}
 	for i := 0; i < n4; i++ {
 		a := c.freeAddrLocked()
 		fe.v4[a] = true
@@ -256,12 +286,12 @@ func (c *dCloud) CreateNetworkInterface(n4, n6 int, eniType string) (*daemon.ENI
 		r4 = append(r4, dV4(a))
 	}
 	ni := c.eniObjLocked(e)
-	as := dSet(fe.v4)
+	as := dBoth(fe)
 	c.cmu.Unlock()
 	c.x.emit(vt.M{"ev": "cl_end", "k": "create", "e": e, "as": as, "err": false})
 	c.x.mu.Unlock()
 	c.x.at("cl_end", false)
-	return ni, r4, nil, nil
+	return ni, r4, r6, nil
 }
 
 func (c *dCloud) AssignNIPv4(id string, count int, mac string) ([]netip.Addr, error) {
@@ -297,7 +327,34 @@ func (c *dCloud) AssignNIPv4(id string, count int, mac string) ([]netip.Addr, er
 }
 
 func (c *dCloud) AssignNIPv6(id string, count int, mac string) ([]netip.Addr, error) {
-	return nil, fmt.Errorf("verif: ipv6 is off")
+	e := dEniNum(id)
+	c.x.enter()
+	c.x.emit(vt.M{"ev": "cl_begin", "k": "assign", "e": e, "n": count, "plan": "ok"})
+	c.x.mu.Unlock()
+	c.x.at("cl_begin", false)
+	c.x.enter()
+	c.cmu.Lock()
+	fe := c.enis[e]
+	if fe == nil {
+		c.cmu.Unlock()
+		c.x.emit(vt.M{"ev": "cl_end", "k": "assign", "e": e, "as": []int{}, "err": true})
+		c.x.mu.Unlock()
+		c.x.at("cl_end", false)
+		return nil, fmt.Errorf("verif: injected failure")
+	}
+	var r []netip.Addr
+	got := []int{}
+	for i := 0; i < count; i++ {
+		a := c.freeV6Locked()
+		fe.v6[a] = true
+		r = append(r, dV6(a))
+		got = append(got, a)
+	}
+	c.cmu.Unlock()
+	c.x.emit(vt.M{"ev": "cl_end", "k": "assign", "e": e, "as": got, "err": false})
+	c.x.mu.Unlock()
+	c.x.at("cl_end", false)
+	return r, nil
 }
 
 func (c *dCloud) UnAssignNIPv4(id string, ips []netip.Addr, mac string) error {
@@ -320,7 +377,25 @@ func (c *dCloud) UnAssignNIPv4(id string, ips []netip.Addr, mac string) error {
 	return nil
 }
 
-func (c *dCloud) UnAssignNIPv6(id string, ips []netip.Addr, mac string) error { return nil }
+func (c *dCloud) UnAssignNIPv6(id string, ips []netip.Addr, mac string) error {
+	e := dEniNum(id)
+	c.x.enter()
+	c.cmu.Lock()
+	got := []int{}
+	if fe := c.enis[e]; fe != nil {
+		for _, ip := range ips {
+			a := dAddrNum(ip.String())
+			if fe.v6[a] {
+				delete(fe.v6, a)
+				got = append(got, a)
+			}
+		}
+	}
+	c.cmu.Unlock()
+	c.x.emit(vt.M{"ev": "cl_end", "k": "unassign", "e": e, "as": got, "err": false})
+	c.x.mu.Unlock()
+	return nil
+}
 
 func (c *dCloud) DeleteNetworkInterface(id string) error {
 	e := dEniNum(id)
@@ -341,11 +416,14 @@ func (c *dCloud) LoadNetworkInterface(mac string) ([]netip.Addr, []netip.Addr, e
 	if fe == nil {
 		return nil, nil, fmt.Errorf("verif: eni %s not found", mac)
 	}
-	var r4 []netip.Addr
+	var r4, r6 []netip.Addr
 	for _, a := range dSet(fe.v4) {
 		r4 = append(r4, dV4(a))
 	}
-	return r4, nil, nil
+	for _, a := range dSet(fe.v6) {
+		r6 = append(r6, dV6(a))
+	}
+	return r4, r6, nil
 }
 
 func (c *dCloud) GetAttachedNetworkInterface(preferTrunkID string) ([]*daemon.ENI, error) {
@@ -631,11 +709,11 @@ type dStore struct {
 	failDel int
 }
 
-func dRecFields(rec daemon.PodResources) (c, e, a int, sticky bool) {
+func dRecFields(rec daemon.PodResources) (c, e, a, a6 int, sticky bool) {
 	c = dCidNum(rec.ContainerID)
 	for _, it := range rec.Resources {
 		if it.Type == daemon.ResourceTypeENIIP {
-			e, a = dEniNum(it.ENIID), dAddrNum(it.IPv4)
+			e, a, a6 = dEniNum(it.ENIID), dAddrNum(it.IPv4), dAddrNum(it.IPv6)
 			break
 		}
 	}
@@ -662,8 +740,8 @@ func (s *dStore) Put(key string, value interface{}) error {
 	s.wait(s.gatePut, p)
 	s.x.enter()
 	rec, _ := value.(daemon.PodResources)
-	c, e, a, sticky := dRecFields(rec)
-	s.x.emit(vt.M{"ev": "put_begin", "p": p, "c": c, "e": e, "a": a, "sticky": sticky})
+	c, e, a, a6, sticky := dRecFields(rec)
+	s.x.emit(vt.M{"ev": "put_begin", "p": p, "c": c, "e": e, "a": a, "a6": a6, "sticky": sticky})
 	s.x.at("put_begin", true)
 	var err error
 	if s.failPut > 0 {
@@ -719,8 +797,8 @@ func dRecList(objs []interface{}) []vt.M {
 		if rec.PodInfo != nil {
 			p = dPodNum(rec.PodInfo.Name)
 		}
-		c, e, a, sticky := dRecFields(rec)
-		r = append(r, vt.M{"p": p, "c": c, "e": e, "a": a, "sticky": sticky})
+		c, e, a, a6, sticky := dRecFields(rec)
+		r = append(r, vt.M{"p": p, "c": c, "e": e, "a": a, "a6": a6, "sticky": sticky})
 	}
 	sort.Slice(r, func(i, j int) bool { return r[i]["p"].(int) < r[j]["p"].(int) })
 	return r
@@ -751,6 +829,7 @@ type dConf struct {
 	policy, fam        string
 	probe              bool
 	realk8s            bool // the API server is asked through the real pkg/k8s code
+	v6                 bool // dual stack: every pod gets an IPv4 and an IPv6 address
 }
 
 type dSys struct {
@@ -797,7 +876,7 @@ func dStart(t *testing.T, conf dConf, x *dWorld, cloud *dCloud, kk *dK8s, dir, d
 		attachedENIID[ni.ID] = ni
 	}
 	podResources := filterENINotFound(getPodResources(objList), attachedENIID)
-	pc := &daemon.PoolConfig{BatchSize: 1, MaxIPPerENI: conf.cap, EnableIPv4: true, MaxENI: conf.slots, Capacity: conf.slots * conf.cap}
+	pc := &daemon.PoolConfig{BatchSize: 1, MaxIPPerENI: conf.cap, EnableIPv4: true, EnableIPv6: conf.v6, MaxENI: conf.slots, Capacity: conf.slots * conf.cap}
 	var eniList []eni.NetworkInterface
 	for _, ni := range attached {
 		l := eni.NewLocal(ni, "secondary", cloud, pc)
@@ -815,7 +894,7 @@ func dStart(t *testing.T, conf dConf, x *dWorld, cloud *dCloud, kk *dK8s, dir, d
 		return nil, err
 	}
 	s.svc = &networkService{daemonMode: daemon.ModeENIMultiIP, k8s: kk, resourceDB: s.store, eniMgr: s.mgr,
-		enableIPv4: true, ipamType: types.IPAMTypeDefault}
+		enableIPv4: true, enableIPv6: conf.v6, ipamType: types.IPAMTypeDefault}
 	return s, nil
 }
 
@@ -1003,43 +1082,43 @@ func dErrCode(err error) string {
 	return "error"
 }
 
-func dNetConfAddr(ncs []*rpc.NetConf) (e, a int) {
+func dNetConfAddr(ncs []*rpc.NetConf) (e, a, a6 int) {
 	for _, nc := range ncs {
 		if nc.BasicInfo != nil && nc.BasicInfo.PodIP != nil && nc.BasicInfo.PodIP.IPv4 != "" {
-			a = dAddrNum(nc.BasicInfo.PodIP.IPv4)
+			a, a6 = dAddrNum(nc.BasicInfo.PodIP.IPv4), dAddrNum(nc.BasicInfo.PodIP.IPv6)
 			if nc.ENIInfo != nil {
 				e = dMacNum(nc.ENIInfo.MAC)
 			}
 			return
 		}
 	}
-	return 0, 0
+	return 0, 0, 0
 }
 
 // doRPC runs one handler of the real service and returns the projected reply.
-func dDoRPC(svc *networkService, ctx context.Context, k string, p, c int) (ok bool, code string, e, a int) {
+func dDoRPC(svc *networkService, ctx context.Context, k string, p, c int) (ok bool, code string, e, a, a6 int) {
 	switch k {
 	case "add":
 		rep, err := svc.AllocIP(ctx, &rpc.AllocIPRequest{K8SPodName: dPodName(p), K8SPodNamespace: dNS,
 			K8SPodInfraContainerId: dCid(c), Netns: fmt.Sprintf("/var/run/netns/%s", dCid(c)), IfName: "eth0"})
 		if err != nil || rep == nil || !rep.Success {
-			return false, dErrCode(err), 0, 0
+			return false, dErrCode(err), 0, 0, 0
 		}
-		e, a = dNetConfAddr(rep.NetConfs)
-		return true, "", e, a
+		e, a, a6 = dNetConfAddr(rep.NetConfs)
+		return true, "", e, a, a6
 	case "del":
 		rep, err := svc.ReleaseIP(ctx, &rpc.ReleaseIPRequest{K8SPodName: dPodName(p), K8SPodNamespace: dNS, K8SPodInfraContainerId: dCid(c)})
 		if err != nil || rep == nil || !rep.Success {
-			return false, dErrCode(err), 0, 0
+			return false, dErrCode(err), 0, 0, 0
 		}
-		return true, "", 0, 0
+		return true, "", 0, 0, 0
 	default:
 		rep, err := svc.GetIPInfo(ctx, &rpc.GetInfoRequest{K8SPodName: dPodName(p), K8SPodNamespace: dNS, K8SPodInfraContainerId: dCid(c)})
 		if err != nil || rep == nil || !rep.Success {
-			return false, dErrCode(err), 0, 0
+			return false, dErrCode(err), 0, 0, 0
 		}
-		e, a = dNetConfAddr(rep.NetConfs)
-		return true, "", e, a
+		e, a, a6 = dNetConfAddr(rep.NetConfs)
+		return true, "", e, a, a6
 	}
 }
 
@@ -1105,9 +1184,9 @@ func (d *dDriver) probeLocked(s *dSys, point string) {
 			continue
 		}
 		ctx, cancel := context.WithTimeout(context.WithValue(context.Background(), dRpcKey{}, 0), 700*time.Millisecond)
-		ok, _, e, a := dDoRPC(ps.svc, ctx, "add", p, 90+p)
+		ok, _, e, a, a6 := dDoRPC(ps.svc, ctx, "add", p, 90+p)
 		cancel()
-		adds = append(adds, vt.M{"p": p, "ok": ok, "e": e, "a": a})
+		adds = append(adds, vt.M{"p": p, "ok": ok, "e": e, "a": a, "a6": a6})
 	}
 	ps.shutdown(true)
 	_ = os.Remove(cp)
@@ -1236,9 +1315,9 @@ func (d *dDriver) call(k string, p, c int, gate string, cancelAt, us int) {
 	svc := s.svc
 	cancelCtx := f.cancel
 	go func() {
-		ok, code, e, a := dDoRPC(svc, ctx, k, p, c)
+		ok, code, e, a, a6 := dDoRPC(svc, ctx, k, p, c)
 		x.mu.Lock()
-		x.emit(vt.M{"ev": "rpc_ret", "r": r, "k": k, "p": p, "ok": ok, "code": code, "e": e, "a": a})
+		x.emit(vt.M{"ev": "rpc_ret", "r": r, "k": k, "p": p, "ok": ok, "code": code, "e": e, "a": a, "a6": a6})
 		x.mu.Unlock()
 		cancelCtx()
 		close(f.done)
@@ -1684,7 +1763,7 @@ func (d *dDriver) finish() {
 
 func dConfOf(m vt.M) dConf {
 	c := dConf{n1: vt.Int(m["n1"]), n2: vt.Int(m["n2"]), slots: vt.Int(m["slots"]), cap: vt.Int(m["cap"]),
-		policy: vt.Str(m["policy"]), fam: vt.Str(m["fam"]), probe: vt.Bool(m["probe"]), realk8s: vt.Bool(m["realk8s"])}
+		policy: vt.Str(m["policy"]), fam: vt.Str(m["fam"]), probe: vt.Bool(m["probe"]), realk8s: vt.Bool(m["realk8s"]), v6: vt.Bool(m["v6"])}
 	if c.policy == "" {
 		c.policy = "most_ips"
 	}
@@ -1744,6 +1823,7 @@ func dRandomScenarios(fam string, n int) [][]vt.M {
 		}
 		cf["fam"] = fam
 		cf["probe"] = fam == "c05"
+		cf["v6"] = (fam == "c05" && i%3 == 1) || (fam == "c04" && i%5 == 4)
 		sc := []vt.M{{"a": "conf", "conf": cf}}
 		np := 3
 		for p := 1; p <= np; p++ {
@@ -1845,7 +1925,7 @@ func dRandomScenarios(fam string, n int) [][]vt.M {
 			n := 8 + rng.Intn(8)
 			if i%5 == 4 {
 				// the pool has to go to the cloud (assign on an attached interface, create a new one)
-				sc[0]["conf"] = vt.M{"n1": 1, "n2": 0, "slots": 2, "cap": 2, "policy": "most_ips", "fam": fam, "probe": true}
+				sc[0]["conf"] = vt.M{"n1": 1, "n2": 0, "slots": 2, "cap": 2, "policy": "most_ips", "fam": fam, "probe": true, "v6": cf["v6"]}
 				n = 5
 			}
 			for j := 0; j < n; j++ {
@@ -2030,9 +2110,12 @@ func TestVerifDaemon(t *testing.T) {
 			if n <= 0 {
 				continue
 			}
-			fe := &dEni{v4: map[int]bool{}, primary: next}
+			fe := &dEni{v4: map[int]bool{}, v6: map[int]bool{}, primary: next}
 			for j := 0; j < n; j++ {
 				fe.v4[next] = true
+				if conf.v6 {
+					fe.v6[100+next] = true
+				}
 				next++
 			}
 			cloud.enis[i+1] = fe
@@ -2043,7 +2126,7 @@ func TestVerifDaemon(t *testing.T) {
 			kk.real, kk.api = dNewRealK8s(t)
 		}
 		w.Emit(vt.M{"ev": "reset", "scen": si, "fam": conf.fam, "cloud": cloud.snapshot(),
-			"conf": vt.M{"n1": conf.n1, "n2": conf.n2, "slots": conf.slots, "cap": conf.cap, "policy": conf.policy, "probe": conf.probe, "realk8s": conf.realk8s}})
+			"conf": vt.M{"n1": conf.n1, "n2": conf.n2, "slots": conf.slots, "cap": conf.cap, "policy": conf.policy, "probe": conf.probe, "realk8s": conf.realk8s, "v6": conf.v6}})
 		s, err := dStart(t, conf, x, cloud, kk, dir, filepath.Join(dir, "ResRelation.db"))
 		if err != nil {
 			t.Fatalf("start: %v", err)
@@ -2170,7 +2253,7 @@ func TestVerifKill(t *testing.T) {
 			switch f[0] + f[1] {
 			case "Bput":
 				fmt.Sscanf(strings.Join(f[2:], " "), "%d %d %d %d", &p, &c, &e, &a)
-				w.Emit(vt.M{"ev": "raw_put_begin", "p": p, "c": c, "e": e, "a": a, "sticky": false})
+				w.Emit(vt.M{"ev": "raw_put_begin", "p": p, "c": c, "e": e, "a": a, "a6": 0, "sticky": false})
 			case "Eput":
 				fmt.Sscanf(f[2], "%d", &p)
 				w.Emit(vt.M{"ev": "raw_put_end", "p": p, "ok": true})
